@@ -734,6 +734,7 @@ def _argforms_property(ctx):
     def build(w, forms, limit, idx):
         """the same little history under the given forms; returns the observation after reopen + raw disk bytes"""
         fw = U.ImplWorld(w.single, forms)
+        os.rmdir(fw.dir)                       # fw works inside w's folder; do not leave its own behind
         fw.dir, fw.path = w.dir, w.path
         outs = [fw.step(['open', 'w', limit])]
         for t, d in payload.items():
